@@ -464,6 +464,10 @@ class Interp(Ops, Builtins, DynOps):
         if attr == "__class__":
             return VClass(cls)
         if not self.spec:
+            if o.kind == "sobj" or (o.kind == "ref" and self.ctx.entry_addr is not None and o.addr < self.ctx.entry_addr):
+                # the object was built by the contract's own argument builder, not by the class's constructor: an attribute it lacks is a gap of the
+                # contract's object model (e.g. a field added to __init__ later), not an AttributeError of the code
+                raise EngineError(f"attribute {attr} is not part of the contract's model of {cls.name} (line {getattr(node, 'lineno', '?')})")
             self.ctx.oblige(f"safety.has_attr.{attr}", z3.BoolVal(False), node)
         raise PathEnd()
 
